@@ -8,7 +8,7 @@ OUT=seeded/RESULTS.tsv
 printf "seed\tproperty\ttier\texit\tviolations\tseconds\tfirst_kind\n" > $OUT
 for d in seeded/*/; do
   n=$(basename $d); pid=$(echo $n | cut -c1-3)
-  grep -q '"obsolete"' $d/meta.json && { printf "%s\t%s\t%s\tobsolete\t-\t-\t-\n" $n $pid $TIER >> $OUT; continue; }
+  grep -q "obsolete" $d/meta.json && { printf "%s\t%s\t%s\tobsolete\t-\t-\t-\n" $n $pid $TIER >> $OUT; continue; }
   git -C /repo apply /verif/$d/patch.diff || { printf "%s\t%s\t%s\tapply-failed\t-\t-\t-\n" $n $pid $TIER >> $OUT; continue; }
   s=$(date +%s)
   ./check $pid --tier $TIER > /tmp/seedrun.out 2>&1; rc=$?
